@@ -38,8 +38,8 @@ ALPHA = "ab[]!-*?/^\\z.2"
 
 
 def rname(rng: random.Random) -> str:
-    n = rng.choice(FRAGS) + rng.choice(DECOS)
-    if rng.random() < 0.25:
+    n = rng.choice(FRAGS) + (rng.choice(DECOS) if rng.random() < 0.5 else "")
+    if rng.random() < 0.15:
         n = rng.choice(DECOS) + n
     return n or "q"
 
